@@ -61,8 +61,15 @@ TDefaults == /\ Rec.ev = "Defaults"
              /\ \A i \in DOMAIN Rec.dups : Clause("equal-named-parameters-carry-equal-defaults", Rec.dups[i][2] = Rec.dups[i][3], Rec.dups[i])
              /\ PrintT(<<"STAT", "default-rows", Len(Rec.rows)>>)
              /\ UNCHANGED <<trs, choice>>
+\* the selector is a mapping over exactly the decays of the reaction (incl. symmetrisation variants);
+\* lookup by (transition, node) and by decay agree
+TShape == /\ Rec.ev = "Shape"
+          /\ Clause("selector-has-one-entry-per-decay", Rec.n = Cardinality(DOMAIN choice), <<Rec.n, Cardinality(DOMAIN choice)>>)
+          /\ Clause("lookup-by-tuple-equals-lookup-by-decay", Rec.tuple_lookup_ok = 1, "")
+          /\ Clause("initially-non-dynamic", Rec.all_non_dynamic = 1, "")
+          /\ UNCHANGED <<trs, choice>>
 Step == /\ l <= Len(Log)
-        /\ (TStart \/ TAssignName \/ TAssignNode \/ TFormulate \/ TDefaults)
+        /\ (TStart \/ TAssignName \/ TAssignNode \/ TFormulate \/ TDefaults \/ TShape)
         /\ l' = l + 1
 TraceInit == l = 1 /\ trs = <<>> /\ choice = <<>>
 TraceSpec == TraceInit /\ [][Step]_<<l, trs, choice>>
